@@ -39,6 +39,7 @@ type tierCfg struct {
 
 type propCfg struct {
 	Test     string // test function name
+	Sweep    string // optional test function that enumerates a finite sub-domain (sharded like the rapid test)
 	Race     bool
 	Quick    tierCfg
 	Thorough tierCfg
@@ -354,6 +355,82 @@ func run(id, tier string) int {
 	}
 	wg.Wait()
 
+	// 2b. exhaustive sweeps of finite sub-domains (thorough: complete; quick: the slice selected by the seed)
+	type sweepReport struct {
+		Name       string `json:"name"`
+		Domain     string `json:"domain"`
+		Evaluated  int64  `json:"evaluated"`
+		DomainSize int64  `json:"domain_size"`
+		Blocks     int    `json:"blocks"`
+		Complete   bool   `json:"complete"`
+		Sample     string `json:"sample"`
+	}
+	sweeps := map[string]*sweepReport{}
+	sweepOrder := []string{}
+	var sweepEvaluated int64
+	if cfg.Sweep != "" {
+		sres := make([]shardResult, tc.Shards)
+		for i := 0; i < tc.Shards; i++ {
+			wg.Add(1)
+			go func(i int) {
+				defer wg.Done()
+				dir := filepath.Join(outDir, fmt.Sprintf("sweep%02d", i))
+				os.MkdirAll(dir, 0o755)
+				args := []string{"-test.run", "^" + cfg.Sweep + "$", "-test.timeout", "0"}
+				env := append(append([]string{}, baseEnv...), "VERIF_OUT="+dir, fmt.Sprintf("VERIF_SHARD=%d", i), fmt.Sprintf("VERIF_NSHARDS=%d", tc.Shards))
+				code, to, out := runChild(bin, args, env, dir, time.Duration(tc.TimeoutS)*time.Second, tc.MemGB)
+				os.WriteFile(filepath.Join(dir, "output.txt"), []byte(out), 0o644)
+				sres[i] = shardResult{idx: i, dir: dir, exit: code, timedOut: to, output: out}
+			}(i)
+		}
+		wg.Wait()
+		for _, r := range sres {
+			failFile := filepath.Join(r.dir, "fail.case.json")
+			switch {
+			case fileExists(failFile):
+				dst := filepath.Join(outDir, fmt.Sprintf("violation-sweep%02d.case.json", r.idx))
+				copyFile(failFile, dst)
+				violations = append(violations, dst)
+				fmt.Printf("sweep shard %d: %s\n", r.idx, firstFailureLine(r.output))
+				continue
+			case r.timedOut:
+				inconclusive = append(inconclusive, fmt.Sprintf("sweep shard %d exceeded %ds", r.idx, tc.TimeoutS))
+				continue
+			case r.exit != 0:
+				inconclusive = append(inconclusive, fmt.Sprintf("sweep shard %d exited %d", r.idx, r.exit))
+				fmt.Printf("sweep shard %d exited %d:\n%s\n", r.idx, r.exit, tail(r.output, 30))
+				continue
+			}
+			var reps []sweepReport
+			if b, err := os.ReadFile(filepath.Join(r.dir, "sweep.json")); err == nil {
+				json.Unmarshal(b, &reps)
+			}
+			if len(reps) == 0 {
+				inconclusive = append(inconclusive, fmt.Sprintf("sweep shard %d wrote no report", r.idx))
+			}
+			for _, rp := range reps {
+				m, ok := sweeps[rp.Name]
+				if !ok {
+					c := rp
+					c.Evaluated, c.Blocks = 0, 0
+					m = &c
+					sweeps[rp.Name] = m
+					sweepOrder = append(sweepOrder, rp.Name)
+				}
+				m.Evaluated += rp.Evaluated
+				m.Blocks += rp.Blocks
+				m.Complete = m.Complete && rp.Complete
+				sweepEvaluated += rp.Evaluated
+			}
+		}
+	}
+	sweepList := []sweepReport{}
+	for _, n := range sweepOrder {
+		m := sweeps[n]
+		m.Complete = m.Complete && m.Evaluated == m.DomainSize
+		sweepList = append(sweepList, *m)
+	}
+
 	skippedCases := []string{} // cases that could not be judged (worker deadline on a loaded machine)
 	merged := shardStats{Property: id, Classes: map[string]int64{}, Known: map[string]int64{}, KnownSample: map[string]string{}}
 	hashes := map[uint64]struct{}{}
@@ -457,6 +534,8 @@ func run(id, tier string) int {
 			"checks_per_shard":    tc.Checks,
 			"race_detector":       cfg.Race,
 			"unjudged_cases":      skippedCases,
+			"sweeps":              sweepList,
+			"sweep_evaluations":   sweepEvaluated,
 		},
 		"assumptions": cfg.Assume,
 		"wall_s":      time.Since(t0).Seconds(),
